@@ -497,7 +497,12 @@ Mon_C33(hn, rp, r) ==
   \* a node that purged its log must hold a snapshot covering the purged prefix (otherwise lagging peers
   \* can be served neither by log nor by snapshot) -- also right after a restart
   {V("C33", "PurgedPrefixCoveredBySnapshot", r,
-     IF ~ND(rp, n).up THEN "snapshot-metadata-lost-by-restart" ELSE "other", ToString(<<n, ND(r, n).base, ND(r, n).snapIdx>>)) :
+     IF ~ND(rp, n).up THEN "snapshot-metadata-lost-by-restart"
+     \* a snapshot older than what the node already holds was installed: state machine, snapshot metadata and log boundary
+     \* go back (InstallSnapshotChunk does not compare the snapshot's last included index with the applied index)
+     ELSE IF r.a.a = "DeliverSnap" /\ r.a.to = n /\ ND(r, n).snapIdx < ND(rp, n).snapIdx
+     THEN "stale-snapshot-installed-over-newer-state"
+     ELSE "other", ToString(<<n, ND(r, n).base, ND(r, n).snapIdx>>)) :
      n \in {x \in UpNodes(r) : ND(r, x).first > 1 /\ ND(r, x).snapIdx + 1 < ND(r, x).first
               /\ ~(ND(rp, x).up /\ ND(rp, x).first > 1 /\ ND(rp, x).snapIdx + 1 < ND(rp, x).first)}}
 
